@@ -1343,8 +1343,19 @@ namespace bloch::runtime {
             m_currentClassCtx = cls;
             slot = defaultValueForField(field, cls->name);
             if (field.hasInitializer && field.initializer) {
-                slot = stampStatic(widenToSlot(eval(field.initializer), field.type.kind),
-                                   field.type.className);
+                // A generic specialisation initialises its statics when it is first instantiated,
+                // in the middle of some function: the initialiser gets a frame of its own so that
+                // its bare names mean the class's members, never that function's locals.
+                beginFrame();
+                Value init;
+                try {
+                    init = eval(field.initializer);
+                } catch (...) {
+                    endFrame();
+                    throw;
+                }
+                endFrame();
+                slot = stampStatic(widenToSlot(init, field.type.kind), field.type.className);
             }
             m_inStaticContext = prevStatic;
             m_currentClassCtx = prevClass;
